@@ -90,15 +90,17 @@ pub fn output_tokens(
 
     let trait_ident = &out_trait.ident;
     // an async method that takes `self` by value moves the `Impl<T>` into its future: for that future to be `Send`, T has to be
+    // (`self` / `mut self` / `self: Self`; `self: &Self` has no `reference` either, but moves nothing)
     let moves_self_into_send_future = attr.opts.future_send().0
-        && generics::has_any_self_by_value(
-            out_trait
-                .fns
-                .iter()
-                .map(|trait_fn| trait_fn.sig())
-                .filter(|sig| sig.asyncness.is_some()),
-        )
-        .0;
+        && out_trait.fns.iter().map(|trait_fn| trait_fn.sig()).any(|sig| {
+            sig.asyncness.is_some()
+                && matches!(
+                    sig.inputs.first(),
+                    Some(syn::FnArg::Receiver(receiver))
+                        if receiver.reference.is_none()
+                            && matches!(receiver.ty.as_ref(), syn::Type::Path(ty) if ty.path.is_ident("Self"))
+                )
+        });
     let params = out_trait.generics.impl_params_from_idents(
         generic_idents,
         generics::TakesSelfByValue(moves_self_into_send_future),
